@@ -36,6 +36,8 @@ THEMES = {
     "lim": (6, 3, 4),
     "pipe": (5, 4, 5),
     "sig": (3, 4, 5),
+    "fork": (4, 5, 6),
+    "forkfd": (4, 4, 5),
 }
 
 TARGET = {"reg": "regular", "dir": "directory", "lnk": "symlink", "fifo": "fifo", "missing": "missing"}
@@ -121,8 +123,16 @@ def classify(sys_, call, target, exp, obs, via, last_main=None):
 def call_key(sys_, call, target, exp, obs, prefix):
     via = _via(prefix)
     # the call under test when `call` is one of the observation calls after it
-    main = [c for c in prefix if c["op"] not in ("statat", "getfd") and not (c["op"] == "lseek" and c.get("wh") == "CUR")]
+    def observation(c):
+        if c["op"] == "kid":
+            return c["c"]["op"] == "getcwd" or observation(c["c"])
+        return c["op"] in ("statat", "getfd", "pending") or (c["op"] == "lseek" and c.get("wh") == "CUR")
+    main = [c for c in prefix if not observation(c)]
     last_main = main[-1] if main else None
+    if call["op"] == "kid":
+        key = call_key(sys_, call["c"], target, exp, obs, prefix)
+        key["in"] = "child"
+        return key
     key = {"level": "call", "sys": sys_, "call": call["op"], "target": TARGET.get(target, target),
            "exp": _fmt(exp), "obs": _fmt(obs), "shape": classify(sys_, call, target, exp, obs, via, last_main)}
     if call["op"] == "open":
@@ -455,6 +465,10 @@ def run(tier):
            "samples": [], "script_samples": []}
     holder = {}
     only = os.environ.get("VERIF_C19_ONLY", "ab")      # development aid
+    if os.environ.get("VERIF_C19_THEMES"):
+        for t in list(THEMES):
+            if t not in os.environ["VERIF_C19_THEMES"].split(","):
+                del THEMES[t]
     if "a" in only:
         part_a_replay(tier, wd, agg, cov, holder)
         part_a_random(tier, wd, agg, cov, holder)
@@ -464,7 +478,7 @@ def run(tier):
     rc = rep.finish()
     ops_all = ["open", "close", "dup", "dup2", "pipe", "tmp", "read", "write", "lseek", "getfd", "setfd", "access",
                "setnb", "fstat", "statat", "umask", "chdir", "getcwd", "opendir", "sigaction", "getsigaction",
-               "sigmask", "kill", "caught", "setrlimit", "getrlimit"]
+               "sigmask", "kill", "caught", "setrlimit", "getrlimit", "pending", "fork", "kid", "wait"]
     vlib.write_evidence(PID, tier, {
         "states": cov["states"],
         "transitions": cov["transitions"],
